@@ -89,15 +89,16 @@ func fixturesFromEnv(def []string) []string {
 	return out
 }
 
-var c02Fixtures = []string{"flat24", "nest", "tiny", "deep", "samename", "rep3"}
+var c02Fixtures = []string{"flat24", "nest", "tiny", "deep", "samename", "rep3", "collide"}
 
 func TestC02(t *testing.T) {
 	cfg := wlCfg{fixtures: fixturesFromEnv(c02Fixtures), maxRecs: envInt("VERIF_MAXRECS", 100), gen: vt.DefaultGen}
 	cfg.gen.LongList = 600
+	cfg.bigPct = 3
 	rapid.Check(t, func(t *rapid.T) {
 		w := genWorkload(t, cfg)
 		o := checkC02(w)
-		record("C02", hashOf(w), w.nontrivial() || (len(w.Records) > 0 && (w.Fixture == "deep" || w.Fixture == "samename")), w.labels(), w.sample)
+		record("C02", hashOf(w), w.nontrivial() || (len(w.Records) > 0 && (w.Fixture == "deep" || w.Fixture == "samename" || w.Fixture == "collide")), w.labels(), w.sample)
 		verdict(t, "C02", w, o)
 	})
 }
